@@ -34,6 +34,8 @@ func NewChan[T any](n int) *Chan[T] {
 
 func (c *Chan[T]) label() string { return c.lbl }
 
+func (c *Chan[T]) isClosed() bool { return c != nil && c.closed }
+
 func (c *Chan[T]) npending(self *Thread, send bool) int {
 	if c == nil {
 		return 0
@@ -72,6 +74,14 @@ func (c *Chan[T]) stateString(s *Sched) string {
 // allPending returns every thread blocked on a matching op of channel c, in arrival order.
 func (c *Chan[T]) allPending(self *Thread, send bool) []*Thread {
 	r := []*Thread{}
+	if c.capa > 0 && PureBuf {
+		// buffered channel: a send always goes through the buffer and a receive always takes from
+		// it, each as a step of its own thread. (Handing a value directly to a thread that is
+		// pending at its receive - or letting a pending sender in as part of a receive - would
+		// merge two steps into one and hide the states in between, e.g. from a non-blocking send
+		// of a third thread; "pending" in this model does not mean "parked" in the Go runtime.)
+		return r
+	}
 	for _, t := range c.s.threads {
 		if t == self || t.done || t.pending == nil || t.pending.completed {
 			continue
@@ -385,6 +395,10 @@ func (c *Chan[T]) Len() int {
 	}
 	s := Cur
 	t := s.me()
+	if c.capa > 0 && !PureBuf {
+		NeedPure = true
+		s.abort("restart:pure-buffer-model")
+	}
 	t.pending = &Op{kind: opClose, ch: c, desc: "len"} // declared like close: conflicts with every op of c
 	s.reschedule(t, false)
 	t.log("len", c.label(), fmt.Sprint(len(c.buf)))
